@@ -17,6 +17,7 @@ type Env struct {
 	st      *State // current state (heap reads)
 	old     *State // state for old(...)
 	loopPre *State
+	loopHead *State
 	vars    map[string]Term
 	bound   []map[string]Term
 	callee  bool // contract of a callee evaluated at a call site: caller locals are not visible
@@ -706,6 +707,14 @@ func (e *Env) call(n ECall) Term {
 		ne := *e
 		ne.st = e.loopPre
 		return ne.tr(n.Args[0])
+	case "head": // value at the head of the current loop iteration
+		argN(1)
+		if e.loopHead == nil {
+			e.fail("head() outside a loop hint/invariant at a back edge")
+		}
+		ne := *e
+		ne.st = e.loopHead
+		return ne.tr(n.Args[0])
 	case "len":
 		argN(1)
 		x := e.tr(n.Args[0])
@@ -885,6 +894,11 @@ func (e *Env) call(n ECall) Term {
 			e.fail("same(): sorts %s / %s", a.Sort, b.Sort)
 		}
 		return eq(a, b)
+	case "streqm":
+		// streqm(m, p0, n0, p1, n1): byte-wise equality of two strings given by (ptr, len) under memory m
+		argN(5)
+		m := e.tr(n.Args[0])
+		return fv.strEq(m, mkStr(e.tr(n.Args[1]), e.tr(n.Args[2])), mkStr(e.tr(n.Args[3]), e.tr(n.Args[4])))
 	case "streq":
 		argN(2)
 		return fv.strEq(fv.heap(e.st, "M", SInt), e.tr(n.Args[0]), e.tr(n.Args[1]))
